@@ -603,9 +603,12 @@ def forall_guards(prog, f, its, B):
                     continue
                 t_true, t_false = st["otherwise"], an.edge_target(st, 0)
                 for bad, holds in ((t_true, (NEG[c[0]], c[1], c[2])), (t_false, c)):
-                    reach = f.reachable_from(bad)
+                    # (edges that cannot be taken once the violating arm has set its result - `return Some(err)` followed by the
+                    # caller's `match .. { None => B }` - are not paths)
+                    dead = an.infeasible_edges_from(f, bad, None)
+                    reach = an.reachable_with_edges_removed(f, bad, set(), dead)
                     if B not in reach and it.bb not in reach:
-                        out.append({"it": it, "cmp": norm_cmp(holds), "how": "the loop leaves the function as soon as an element violates it"})
+                        out.append({"it": it, "cmp": norm_cmp(holds), "how": "the loop leaves as soon as an element violates it and B is not reached from there"})
     # flags (all(..) results are handled above; conjunction and violation flags here) tested on their true edge
     flags = forall_flags(prog, f, its)
     for sb, st in f.switches():
